@@ -3,7 +3,7 @@ from __future__ import annotations
 import json, random
 from ..common import Result, Violation, run_driver, canon_hash
 from .. import aghist
-from ..aghist import Gen, Impl, canon_obs, canon_out, consistent, mirror
+from ..aghist import Gen, Impl, canon_obs, canon_out, consistent, mirror, rejected_clean
 
 ASSUMPTIONS = [
     'operations receive objects the API accepts: live nodes / attackers of this graph, node ids that exist; plus the explicitly rejected duplicate ids',
@@ -16,7 +16,10 @@ TRUSTED = ['Lean 4.33 kernel', 'axioms: propext, Classical.choice, Quot.sound',
            'harness/aghist.py (history generator, real-code executor, canonicalisation, direct consistency checker)']
 
 WEIGHTS = {'add_node': 6, 'add_node_dup': 1, 'link': 8, 'remove_node': 4, 'add_attacker': 3, 'remove_attacker': 2,
-           'compromise': 6, 'undo': 3, 'attach': 1, 'set_labels': 2, 'prune': 1, 'lookup': 2, 'surface': 1}
+           'compromise': 6, 'undo': 3, 'attach': 1, 'set_labels': 2, 'prune': 1, 'lookup': 2, 'surface': 1,
+           # calls that must be rejected and change nothing: unknown node id after valid ones, id in use with reached steps,
+           # an attacker / node object that is already part of the graph (same id, other id, no id)
+           'add_attacker_bad': 2, 'add_attacker_used_id': 1, 'add_attacker_again': 1, 'add_node_again': 1}
 
 def check_history(pid, ops, res: Result, oracle, model_out=None):
     """returns list of Violation for one history"""
@@ -66,18 +69,29 @@ def run_histories(pid, seed, tier, lean, weights, oracle_step, nontrivial, quick
         kinds = set()
         bad = None
         for i, op in enumerate(ops):
-            st = im.step(op)
+            try:
+                st = im.step(op)
+            except Exception:
+                if bad is None: raise
+                break           # after a divergence the rest of the history may not fit the real state any more
             kinds.add(op['k']); res.bump(op['k'])
             if st['err']: res.bump('rejected:' + st['err'])
-            probs = oracle_step(im, ops, i, st)
+            if 'case' in op: res.bump(op['case'] + (' -> ' + st['err'] if st['err'] else ' -> accepted'))
+            try:
+                probs = oracle_step(im, ops, i, st)
+            except Exception:
+                if bad is None: raise
+                break
             if probs:
                 bad = ('oracle', i, probs); break
-            if mo_steps is not None:
+            if mo_steps is not None and bad is None:
                 mo = mo_steps[i]
                 a = [st['err'], canon_out(op, st['out']), canon_obs(st['obs'])]
                 b = [mo['err'], canon_out(op, mo['out']), canon_obs(mo['obs'])]
                 if a != b:
-                    bad = ('diverge', i, {'impl': a, 'model': b}); break
+                    # implementation and model disagree: go on with the direct oracle alone — if the rest of the
+                    # history turns the disagreement into a violation of the property, that concrete input is reported
+                    bad = ('diverge', i, {'impl': a, 'model': b}); continue
                 if [st['out'], st['obs']] != [mo['out'], mo['obs']]:
                     res.drift += 1
         if nontrivial(kinds, ops):
@@ -143,7 +157,8 @@ def renumber(ops, i):
     # counting earlier ops of the same kind (rejected duplicates make this inexact -> skip)
     kind = op['k']
     if any(o['k'] == 'add_node_dup' for o in ops): return None
-    ref = sum(1 for o in ops[:i] if o['k'] == kind)
+    if 'case' in op: return rest      # built to be rejected: allocates nothing
+    ref = sum(1 for o in ops[:i] if o['k'] == kind and 'case' not in o)
     if kind == 'add_node' and any(o['k'] == 'add_node' and o.get('id') is not None for o in ops): return None
     out = []
     for o in rest:
@@ -153,22 +168,23 @@ def renumber(ops, i):
             if o['k'] == 'link':
                 if ref in (o['p'], o['c']): continue
                 o['p'] -= o['p'] > ref; o['c'] -= o['c'] > ref
-            elif o['k'] in ('remove_node', 'compromise', 'undo', 'trav'):
+            elif o['k'] in ('remove_node', 'compromise', 'undo', 'trav', 'add_node_again'):
                 if o['n'] == ref: continue
                 o['n'] -= o['n'] > ref
             elif o['k'] == 'set_labels':
                 o['labels'] = [[r - (r > ref), v, n] for r, v, n in o['labels'] if r != ref]
-            elif o['k'] in ('add_attacker', 'lookup', 'update_surface'):
+            elif o['k'] in ('add_attacker', 'add_attacker_again', 'lookup', 'update_surface'):
                 return None
         else:
-            if o['k'] in ('remove_attacker', 'compromise', 'undo', 'trav', 'surface', 'update_surface'):
+            if o['k'] in ('remove_attacker', 'compromise', 'undo', 'trav', 'surface', 'update_surface', 'add_attacker_again'):
                 if o['a'] == ref: continue
                 o['a'] -= o['a'] > ref
         out.append(o)
     return out
 
 def step_oracle(im, ops, i, st):
-    return consistent(im.g)
+    # after EVERY operation, the rejected ones too: the graph is consistent, and a rejected operation has changed nothing
+    return consistent(im.g) + rejected_clean(st)
 
 def generated_case(rnd):
     """a graph generated from a random language and model (duplicate edges arise when two paths or two step expressions
@@ -216,7 +232,9 @@ def _run(seed, tier, lean) -> Result:
                         lambda kinds, ops: len(kinds & {'remove_node', 'remove_attacker', 'add_attacker', 'prune', 'undo', 'attach'}) >= 2,
                         quick_n=400, thorough_n=2400)
     res.rule = ('random histories (6-150 operations) over pools of live handles, explicit/duplicate ids, self-loops and '
-                'duplicate edges; after every step the real graph is checked for structural consistency and its '
+                'duplicate edges, add_attacker with an unknown node id after valid ones / an id in use with reached steps, '
+                'add_node / add_attacker of an object that is already part of the graph; after every step - the rejected ones '
+                'too, which must change nothing - the real graph is checked for structural consistency and its '
                 'canonical state is compared with the Lean state machine; non-trivial = at least two different '
                 'kinds of removing/adding operations; distinct by hash of the operation list')
     return res
